@@ -41,6 +41,9 @@ def cases(tier):
     for s in U.grid_specs(tier):
         out.append({"grid": s, "part": "const"})
         out.append({"grid": s, "part": "source"})
+    for s in U.big_specs():
+        out.append({"grid": s, "part": "const_big"})
+        out.append({"grid": s, "part": "source"})
     templates = ["U", "I"] if tier == "quick" else ["U", "G", "I"]
     for cls in U.CLASSES:
         d = U.dim(cls)
@@ -61,7 +64,7 @@ def weight(case):
     return n * (50 if case["part"] == "fixedpoint" else 1) * len(case["grid"]["shape"])
 
 
-def _const_part(g, res):
+def _const_part(g, res, big=False):
     F = res["findings"]
     rows = np.flatnonzero(g.imask)
     ones = np.ones(g.n)
@@ -76,7 +79,16 @@ def _const_part(g, res):
         F.append({"key": k, "msg": "%s on %s, unit coefficient on face axis %d %s%s: operator applied to the constant 1 gives %.6g in cell %s, expected %.6g"
                                    % (kind, U.spec_id(g.spec), ax, list(idx), extra, got[i], list(g.cell_of_flat(int(rows[i]))), want[i]),
                   "detail": {"grid": U.spec_id(g.spec), "face": [ax, list(idx)]}})
-    for (ax, idx) in g.faces:
+    if big:     # many cells: generic coefficient fields only
+        Dm = pf.diffusionTerm(U.generic_face(g.mesh, tag=47))
+        got = (Dm @ ones)[rows]
+        sc = (abs(Dm) @ ones)[rows]
+        res["evals"] += 1
+        res["nontrivial"] += 1
+        if np.any(np.abs(got) > 1e-12 * sc + 1e-300):
+            F.append({"key": "C06:diffusion_of_constant:%s:big" % g.cls, "msg": "diffusionTerm on %s with a generic D applied to a constant field is %.6g (must vanish)"
+                      % (U.spec_id(g.spec), float(np.max(np.abs(got)))), "detail": {}})
+    for (ax, idx) in (g.faces if not big else []):
         Dm = dense(pf.diffusionTerm(g.unit_face(ax, idx)))
         res["evals"] += 1
         got = (Dm @ ones)[rows]
@@ -293,7 +305,9 @@ def run_case(case):
     g = Grid(case["grid"])
     res = {"evals": 0, "nontrivial": 0, "findings": [], "outcomes": {}}
     part = case["part"]
-    if part == "const":
+    if part == "const_big":
+        _const_part(g, res, big=True)
+    elif part == "const":
         _const_part(g, res)
     elif part == "source":
         _source_part(g, res)
